@@ -49,7 +49,7 @@ def main():
         if result != NULL:
             print(str(result))
     except CklRuntimeError as e:
-        print(str(e.value.asString().value)
+        print(str(e.value.value if e.value.isString() else e.value)
               + ": " + str(e.msg)
               + " (Line " + str(e.pos) + ")")
         if e.stacktrace:
